@@ -27,6 +27,14 @@ const (
 	// from "A string" to "A int" for example (over "B string" to "A int"),
 	// since we'd prefer to convert our original type.
 	weightMatchingName = -1
+
+	// weightInheritedName is the weight to use for the edges to any value
+	// vertex whose name matches the name of a value that is being produced
+	// further up the stack (see callState.Affinity). It has to stay below
+	// weightTyped to be a preference at all, and above zero: with the
+	// negative weightMatchingName next to it, a vertex reached at no cost
+	// could be settled before the value with the matching name is looked at.
+	weightInheritedName = weightNormal
 )
 
 // valueConverter is the interface implemented by vertices that can
